@@ -71,9 +71,9 @@ type gcSess struct {
 	recIdx map[uint32]map[uint32]int
 	// gcSeen: a rewrite has written entries back in this session; wbKeys: the user keys written back
 	gcSeen bool
-	// tombBelow[key]: a write-back of `key` happened while the LSM held a dead (deleted/expired)
-	// version of it newer than the version written back
-	tombBelow map[string]bool
+	// wbs[key][ver] = the largest gcDiscardTs (DB max version at the start of the rewrite) of a
+	// rewrite that selected (key, ver) for write-back
+	wbs map[string]map[uint64]uint64
 }
 
 func (s *gcSess) closeAll() {
@@ -127,7 +127,7 @@ func (s *gcSess) open(kv map[string]string) (string, error) {
 	s.run = nil
 	s.recIdx = map[uint32]map[uint32]int{}
 	s.gcSeen = false
-	s.tombBelow = map[string]bool{}
+	s.wbs = map[string]map[uint64]uint64{}
 	mc, ms, _ := badger.VerifLimits(s.db)
 	return fmt.Sprintf("reset managed=%d keep=%d thr=%d levels=%d maxent=%d memsz=%d tblsz=%d basesz=%d now=%d maxcount=%d maxsize=%d",
 		b2i(s.managed), s.keep, s.thr, s.levels, s.maxent, memsz, tblsz, basesz, s.now, mc, ms), nil
@@ -255,23 +255,34 @@ func (s *gcSess) vdump(fail func(string, string)) string {
 // ---------------------------------------------------------------- oracles
 
 // classify names the specific failing behaviour of a read that disagrees with the history.
-func (s *gcSess) classify(key string, got, want string, dflt string) string {
+// gotVer: the version of the entry that was served (0: none).
+func (s *gcSess) classify(key string, got, want string, gotVer uint64, dflt string) string {
 	switch {
-	case strings.HasPrefix(got, "READERR"):
-		if s.managed && s.spec.dupVersion([]byte(key)) && s.l0l0Seen {
-			return "F2:l0-resort-duplicate-version"
-		}
+	case strings.Contains(got, "READERR"):
 		return "C15-dangling-read"
 	case want == "absent" && got != "absent":
-		if s.tombBelow[key] {
-			return "F19:gc-writeback-under-tombstone"
+		// F21: the version served was written back by a rewrite, and the history holds a dead
+		// (deleted / expired) version of the key above it that is NOT above that rewrite's
+		// gcDiscardTs (a dead version above gcDiscardTs is what the #2286 clamp protects)
+		if gcTs, ok := s.wbs[key][gotVer]; ok {
+			for _, x := range s.spec.hist[key] {
+				if x.dead(s.now) && x.ver > gotVer && x.ver <= gcTs {
+					return "F21:gc-writeback-above-tombstone"
+				}
+			}
 		}
 		return "C15-resurrected"
 	}
-	if s.managed && s.spec.dupVersion([]byte(key)) && s.l0l0Seen {
-		return "F2:l0-resort-duplicate-version"
-	}
 	return dflt
+}
+
+func verOfRead(r string) uint64 {
+	if i := strings.IndexByte(r, ':'); i > 0 {
+		if v, err := strconv.ParseUint(r[:i], 10, 64); err == nil {
+			return v
+		}
+	}
+	return 0
 }
 
 // judgeReads: every read at or above the discard watermark is what it was before the step and
@@ -286,19 +297,19 @@ func (s *gcSess) judgeReads(what string, pre []readSnap, fail func(string, strin
 		}
 		judged := !(s.spec.compacted && r.ts < s.spec.maxDiscard)
 		if now != r.res {
-			fail(s.classify(r.key, now, want, "C15-read-changed"), fmt.Sprintf("%s changed the read of key %s at ts=%d: before %q after %q (history: %q)", what, hx([]byte(r.key)), r.ts, r.res, now, want))
+			fail(s.classify(r.key, now, want, verOfRead(now), "C15-read-changed"), fmt.Sprintf("%s changed the read of key %s at ts=%d: before %q after %q (history: %q)", what, hx([]byte(r.key)), r.ts, r.res, now, want))
 			return
 		}
 		if judged && now != want {
-			fail(s.classify(r.key, now, want, "C15-read-wrong"), fmt.Sprintf("after %s key %s at ts=%d reads %q, history says %q", what, hx([]byte(r.key)), r.ts, now, want))
+			fail(s.classify(r.key, now, want, verOfRead(now), "C15-read-wrong"), fmt.Sprintf("after %s key %s at ts=%d reads %q, history says %q", what, hx([]byte(r.key)), r.ts, now, want))
 			return
 		}
 	}
 }
 
-// noteWriteBacks: for every key a rewrite of `fid` is about to write back (its scan has just
-// run), remember whether the LSM holds a newer dead version of it.
-func (s *gcSess) noteWriteBacks(fid uint32) {
+// noteWriteBacks: the (key, version) pairs a rewrite of `fid` selects (its scan has just run, or
+// is about to run with nothing in between), with the rewrite's gcDiscardTs.
+func (s *gcSess) noteWriteBacks(fid uint32, gcTs uint64) {
 	recs, err := badger.VerifVlogRecords(s.db, fid)
 	if err != nil {
 		return
@@ -308,25 +319,15 @@ func (s *gcSess) noteWriteBacks(fid uint32) {
 		if err != nil || !ok || e.Version != r.Version || !e.IsPtr || e.Fid != fid || e.Offset != r.Offset {
 			continue
 		}
-		// does the LSM hold a dead version of the key newer than the record?
-		for _, ts := range s.versionsOf(r.Key) {
-			if ts <= r.Version {
-				continue
-			}
-			x, okx, _ := badger.VerifGetAtPtr(s.db, r.Key, ts)
-			if okx && x.Version > r.Version && badger.VerifIsDeletedOrExpired(x.Meta, x.ExpiresAt) {
-				s.tombBelow[string(r.Key)] = true
-			}
+		m := s.wbs[string(r.Key)]
+		if m == nil {
+			m = map[uint64]uint64{}
+			s.wbs[string(r.Key)] = m
+		}
+		if gcTs > m[r.Version] || m[r.Version] == 0 {
+			m[r.Version] = gcTs
 		}
 	}
-}
-
-func (s *gcSess) versionsOf(key []byte) []uint64 {
-	var out []uint64
-	for _, v := range s.spec.hist[string(key)] {
-		out = append(out, v.ver)
-	}
-	return out
 }
 
 // ---------------------------------------------------------------- executor
@@ -385,6 +386,7 @@ func (s *gcSess) startRun(fid uint32) (bool, string) {
 func (s *gcSess) finishRun() string {
 	run := s.run
 	s.run = nil
+	run.nrec = s.totalRecs()
 	recsOld := 0
 	if r, err := badger.VerifVlogRecords(s.db, run.fid); err == nil {
 		recsOld = len(r)
@@ -531,6 +533,7 @@ func execGc(intents []string, st *Stats) (final, outs, oracle []string) {
 				}
 			}
 			emit(line, out)
+			badger.VerifSyncMarks(s.db)
 			if !tx.done && len(key) > 0 {
 				s.judgeGetGc(tx, key, out, fail)
 			}
@@ -542,7 +545,10 @@ func execGc(intents []string, st *Stats) (final, outs, oracle []string) {
 				continue
 			}
 			cts := atou(w[2])
-			// items held from this transaction die with it
+			// commitAndSend ranges over the Go map pendingWrites: the order in which the entries
+			// reach the value log is observed and handed to the model (`vorder=`)
+			st0 := badger.VerifVlogState(s.db)
+			recs0, _ := badger.VerifVlogRecords(s.db, st0.MaxFid)
 			var err error
 			if s.managed {
 				err = tx.t.CommitAt(cts, nil)
@@ -552,6 +558,13 @@ func execGc(intents []string, st *Stats) (final, outs, oracle []string) {
 			badger.VerifSyncMarks(s.db)
 			badger.VerifWaitFlushed(s.db)
 			s.emitEventsX(emit, fail, "", true)
+			if recs1, e1 := badger.VerifVlogRecords(s.db, st0.MaxFid); e1 == nil && len(recs1) > len(recs0) {
+				var ks []string
+				for _, r := range recs1[len(recs0):] {
+					ks = append(ks, hx(r.Key))
+				}
+				line = fmt.Sprintf("commit %s %s vorder=%s", w[1], w[2], strings.Join(ks, ","))
+			}
 			switch {
 			case err == nil && len(tx.pending) > 0 && !tx.done:
 				ts := badger.VerifNextTxnTs(s.db) - 1
@@ -699,6 +712,7 @@ func execGc(intents []string, st *Stats) (final, outs, oracle []string) {
 				f = "ERR:" + strings.ReplaceAll(err.Error(), " ", "_")
 			}
 			emit(line, "item "+f)
+			badger.VerifSyncMarks(s.db)
 			// oracle: the item is the history's write of that (key, version)
 			s.judgeIterItem(item, f, fail)
 			it.it.Next()
@@ -730,7 +744,7 @@ func execGc(intents []string, st *Stats) (final, outs, oracle []string) {
 			nrec := s.totalRecs()
 			recsOld := 0
 			if fid != 0 {
-				s.noteWriteBacks(fid)
+				s.noteWriteBacks(fid, s.db.MaxVersion())
 				r, _ := badger.VerifVlogRecords(s.db, fid)
 				recsOld = len(r)
 			}
@@ -777,7 +791,8 @@ func execGc(intents []string, st *Stats) (final, outs, oracle []string) {
 			parked, out := s.startRun(fid)
 			emit(line, out)
 			if parked {
-				s.noteWriteBacks(fid)
+				_, gcTs := badger.VerifGcClamp(s.db)
+				s.noteWriteBacks(fid, gcTs)
 				s.judgeReads(fmt.Sprintf("the GC scan of file %d", fid), s.run.pre, fail)
 				st.Inc("gc:parked")
 			}
@@ -824,10 +839,13 @@ func (s *gcSess) judgeGetGc(tx *mvTxn, key []byte, out string, fail func(string,
 	}
 	if out != want {
 		got := out
+		gotVer := uint64(0)
 		if out == "notfound" {
 			got = "absent"
+		} else if i := strings.IndexByte(out, '@'); i > 0 {
+			gotVer = verOfRead(out[i+1:])
 		}
-		fail(s.classify(string(key), got, wantAbs, "C15-get-wrong"), fmt.Sprintf("Get returned %q, the snapshot at readTs=%d holds %q", out, tx.readTs, want))
+		fail(s.classify(string(key), got, wantAbs, gotVer, "C15-get-wrong"), fmt.Sprintf("Get returned %q, the snapshot at readTs=%d holds %q", out, tx.readTs, want))
 	}
 }
 
@@ -835,6 +853,11 @@ func (s *gcSess) judgeGetGc(tx *mvTxn, key []byte, out string, fail func(string,
 // that (key, version).
 func (s *gcSess) judgeIterItem(item *badger.Item, got string, fail func(string, string)) {
 	key := item.KeyCopy(nil)
+	// versions below the newest version at or under a discard watermark already used are not
+	// promised (AllVersions scans show such leftovers; their values may be gone)
+	if nv, ok := s.spec.newest(key, s.spec.maxDiscard, 0); s.spec.compacted && ok && item.Version() < nv.ver {
+		return
+	}
 	for _, v := range s.spec.hist[string(key)] {
 		if v.ver == item.Version() && !v.del {
 			if s.spec.dupVersion(key) {
@@ -1044,7 +1067,7 @@ func genGcSession(rng *rand.Rand, st *Stats) []string {
 			ops = append(ops, "flush")
 		case r < 89:
 			if rng.Intn(3) == 0 {
-				ops = append(ops, fmt.Sprintf("compact this=0 id=%d adj=1.5", rng.Intn(2)))
+				ops = append(ops, fmt.Sprintf("compact this=0 id=%d adj=%s", rng.Intn(2), pick(rng, "1.5", "1.5", "0.5")))
 			} else {
 				ops = append(ops, fmt.Sprintf("compact pick=%d id=%d adj=%s", rng.Intn(16), rng.Intn(2), pick(rng, "1.5", "1.5", "0")))
 			}
